@@ -27,6 +27,23 @@ CFGS = [
 
 
 
+# option sets for schedules with injected I/O faults (FailSet): small value-log files so that a rotation (the
+# value log's only file operations: truncate + sync of the sealed file, create of the next one) falls inside a
+# refused batch; a 2 ms coalescing window so that concurrently issued writes share one commit batch
+FCFGS = [
+    {"mem": "skiplist", "vlog": True, "buckets": 1, "vlogsize": 512, "vallen": 200, "batchwait_us": 2000},
+    {"mem": "art", "vlog": True, "buckets": 1, "vlogsize": 1024, "vallen": 200, "batchwait_us": 2000},
+    {"mem": "skiplist", "vlog": True, "buckets": 2, "vlogsize": 512, "vallen": 150, "batchwait_us": 2000},
+]
+# SyncWrites: the WAL is flushed and fsynced inside every commit, so WAL file operations happen during a Set
+FCFGS_WAL = [
+    {"mem": "skiplist", "sync": True, "batchwait_us": 2000},
+    {"mem": "art", "sync": True, "vlog": True, "buckets": 1, "vlogsize": 1024, "vallen": 200, "batchwait_us": 2000},
+]
+FAULTS_VLOG = [{"fop": "open_file", "suffix": ".vlog"}, {"fop": "open_file", "suffix": ".vlog"}, {"fop": "file_truncate", "suffix": ".vlog"},
+               {"fop": "open_file", "suffix": ".vlog"}, {"fop": "file_sync", "suffix": ".vlog"}]
+FAULTS_WAL = [{"fop": "file_sync", "suffix": ".wal"}, {"fop": "file_write", "suffix": ".wal"}, {"fop": "file_sync", "suffix": ".wal"}]
+
 BOTTOM = 6  # utils.MaxLevelNum - 1: the level small databases compact into by default
 
 # real versions used for the model's version ranks 1,2,3 (C02): identity, a set straddling the 256 and
@@ -34,7 +51,7 @@ BOTTOM = 6  # utils.MaxLevelNum - 1: the level small databases compact into by d
 VMAPS = [[1, 2, 3], [3, 261, 70000], [255, 256, 257], [65535, 65536, 65537]]
 
 
-def to_ops(hist, versioned, bottom=False, vmap=None, txn=False, par=False):
+def to_ops(hist, versioned, bottom=False, vmap=None, txn=False, par=False, faults=None):
     """Model actions -> driver operations. Every written value gets a unique suffix so that a
     read reply identifies exactly one write. bottom=True lets L0 move to the engine's natural base
     level (the bottom level for small data) instead of forcing L1."""
@@ -61,9 +78,16 @@ def to_ops(hist, versioned, bottom=False, vmap=None, txn=False, par=False):
                 ops.append({"op": "TSet", "k": k, "v": h["v"]} if o == "Set" else {"op": "TDel", "k": k})
             else:
                 ops.append({"op": o, "k": k, "v": h["v"]} if o == "Set" else {"op": "Del", "k": k})
+        elif o == "FailSet":
+            # a refused commit batch: one write per key, issued concurrently, with a one-shot injected I/O error
+            # armed in the engine's filesystem for the duration of the call (it fires only if the matching file
+            # operation happens; the driver records each write's real outcome)
+            f = dict(faults[n % len(faults)])
+            w = [{"k": "k%d" % k, "v": "x%dk%d" % (n, k)} for k in h["ks"]]
+            ops.append({"op": "Set", "k": w[0]["k"], "v": w[0]["v"], "fault": f} if len(w) == 1 else {"op": "ParSet", "w": w, "fault": f})
         elif o in opmap:
             ops.append(dict(opmap[o]))
-        # L0ToL0 is not drivable (needs tables older than 10 s): skipped, see DESIGN.md
+        # L0ToL0 is driven by a dedicated thorough-tier scenario only (the planner needs tables older than 10 s)
     if par:  # runs of plain Sets on distinct keys are issued concurrently (one coalesced commit batch)
         out, run = [], []
         def flush_run():
@@ -73,11 +97,11 @@ def to_ops(hist, versioned, bottom=False, vmap=None, txn=False, par=False):
                 out.extend(run)
             run.clear()
         for op in ops:
-            if op["op"] == "Set" and op["k"] not in {x["k"] for x in run}:
+            if op["op"] == "Set" and "fault" not in op and op["k"] not in {x["k"] for x in run}:
                 run.append(op)
             else:
                 flush_run()
-                if op["op"] == "Set":
+                if op["op"] == "Set" and "fault" not in op:
                     run.append(op)
                 else:
                     out.append(op)
@@ -100,8 +124,8 @@ def gen_cover(ctx):
     return [sigs[k] for k in sorted(sigs)], r
 
 
-def gen_schedules(ctx, cfg, num, depth, seed):
-    r = ctx.tlc_or_undecided("Engine", cfg, workers=1, simulate="num=%d" % num, depth=depth + 1, seed=seed, timeout=600)
+def gen_schedules(ctx, cfg, num, depth, seed, module="Engine"):
+    r = ctx.tlc_or_undecided(module, cfg, workers=1, simulate="num=%d" % num, depth=depth + 1, seed=seed, timeout=900)
     seen, out = set(), []
     for m in re.finditer(r'<<"SCHED", "(.*)">>', r.out):
         s = m.group(1).encode().decode("unicode_escape")
@@ -136,6 +160,56 @@ def project(ev, vmap=None):
         return {"e": "Maint", "ok": False}
     out = {k: ev[k] for k in ("e", "cf", "k", "v", "ver", "r", "rver", "ok") if k in ev}
     return out
+
+
+def fault_score(h):
+    """Relevance of a behaviour with FailSet actions: refused batches of >= 2 writes whose keys already hold a
+    value, followed by further writes (which seal the value-log file) and a GC."""
+    best = 0
+    for i, a in enumerate(h):
+        if a["op"] != "FailSet":
+            continue
+        sc = len([k for k in a["ks"] if any(b["op"] == "Set" and b["k"] == k for b in h[:i])]) + (2 if len(a["ks"]) >= 2 else 0)
+        later = [j for j in range(i + 1, len(h)) if h[j]["op"] == "Set"]
+        if later and any(b["op"] == "GC" for b in h[later[0]:]):
+            sc += 3
+        best = max(best, sc)
+    return best
+
+
+def gen_fault_hists(ctx, n, depths, num):
+    """TLC -simulate behaviours of Engine.tla with the FailWrite action enabled; the most relevant ones first
+    (two thirds), the rest as generated."""
+    hs = []
+    for d in depths:
+        cfgname = "Gen_EngineF_%d.cfg" % d
+        src = open(os.path.join(ctx._specdir(), "Gen_EngineF.cfg")).read()
+        open(os.path.join(ctx._specdir(), cfgname), "w").write(re.sub(r"MaxHist = \d+", "MaxHist = %d" % d, src))
+        hs += [h for h in gen_schedules(ctx, cfgname, num, d, ctx.seed * 1000 + 500 + d) if any(a["op"] == "FailSet" for a in h)]
+    ctx.rng.shuffle(hs)
+    ranked = sorted(hs, key=fault_score, reverse=True)
+    top = ranked[: (2 * n) // 3]
+    rest = [h for h in hs if not any(h is t for t in top)]
+    out = top + rest[: n - len(top)]
+    return [h if h[-1]["op"] == "GC" else h + [{"op": "GC"}] for h in out]
+
+
+def project_trace(events, vmap=None):
+    """Property-layer projection of one recorded trace. Returns (projected events, raw index of each).
+    After an injected I/O fault has fired, a read that itself reports an I/O error is inconclusive (dropped),
+    and a Close that reports an error (or a fail-stop panic of the engine) is not a clean close: what is readable
+    afterwards is crash recovery (Durability family), so the trace ends there."""
+    out, idx, faulted = [], [], False
+    for i, ev in enumerate(events):
+        if (ev.get("fault") or {}).get("fired"):
+            faulted = True
+        if faulted:
+            if ev["e"] in ("Get", "GetV") and str(ev.get("r", "")).startswith("ERR:"):
+                continue
+            if ev["e"] in ("Close", "Panic") or (ev["e"] == "Maint" and ev.get("what") == "Reopen" and ev.get("closeerr")):
+                break
+        out.append(project(ev, vmap)); idx.append(i)
+    return out, idx
 
 
 def run_driver(ctx, scheds, tag):
@@ -197,9 +271,44 @@ def version_inversion_seen(events, upto, cf, k):
     return False
 
 
+def wal_sync_error_seen(events, upto, cf, k, reply):
+    """Witness of finding C01-wal-sync-error-visible: the reply is the value (or the deletion) of an earlier
+    write to the key that returned the error injected into a WAL file operation: with SyncWrites the WAL is
+    flushed/fsynced by db.wal.Sync() AFTER the batch has been applied to the memtable."""
+    for ev in events[:upto]:
+        if ev["e"] in ("Set", "Del") and ev.get("k") == k and ev.get("cf") == cf and not ev.get("ok"):
+            fired = (ev.get("fault") or {}).get("fired") or ""
+            if fired.endswith(".wal") and (reply == ev.get("v") if ev["e"] == "Set" else reply == "NOTFOUND"):
+                return True
+    return False
+
+
+def l0l0_fid_seen(events, upto, cf, k):
+    """Witness of finding C01-l0l0-fid: an L0->L0 compaction ran, and at or before line `upto` the key was held,
+    under one version, by two L0 tables of which the one with the HIGHER fid is that compaction's output
+    (Engine.tla: L0FidInversion)."""
+    outs, l0 = set(), set()
+    for ev in events[:upto + 1]:
+        if ev["e"] == "Maint" and ev.get("layout"):
+            now = {f for lv in (ev["layout"].get("levels") or []) if lv["level"] == 0 for f in (lv.get("main") or [])}
+            if ev.get("what") == "Compact" and ev.get("kind") == "l0l0" and ev.get("res") == "done":
+                outs |= now - l0
+            l0 = now
+        if outs and ev["e"] in ("Get", "GetV") and ev.get("k") == k and ev.get("cf") == cf:
+            tabs = [s for s in (ev.get("src") or []) if s["kind"] == "l0"]
+            for a in tabs:
+                if a["id"] in outs and any(b["id"] < a["id"] and b["ver"] == a["ver"] for b in tabs):
+                    return True
+    return False
+
+
 def classify(pid, events, line):
     ev = events[line]
     if ev["e"] in ("Get", "GetV"):
+        if l0l0_fid_seen(events, line, ev.get("cf"), ev.get("k")):
+            return "l0l0-fid"
+        if wal_sync_error_seen(events, line, ev.get("cf"), ev.get("k"), ev.get("r")):
+            return "wal-sync-error-visible"
         if ingest_tie_seen(events, line, ev.get("cf"), ev.get("k")):
             return "ingest-tie"
         if version_inversion_seen(events, line, ev.get("cf"), ev.get("k")):
@@ -215,7 +324,7 @@ def impl_trace(sched, events):
     """Projects one executed schedule onto Engine.tla's vocabulary for implementation-level validation
     (EngineTrace.tla). Returns None when the schedule uses something the model abstracts away (value-log
     GC rewrites, transactional or concurrent writes, rotation of an empty memtable)."""
-    if sched["cfg"].get("vlog") or sched.get("txn") or sched.get("vmap"):
+    if sched["cfg"].get("vlog") or sched.get("txn") or sched.get("vmap") or any("fault" in op for op in sched["ops"]):
         return None
     lvl = BOTTOM if sched.get("bottom") else 1
     out, i, dirty = [], 0, False
@@ -243,9 +352,9 @@ def impl_trace(sched, events):
         elif op["op"] == "Flush":
             rec = {"e": "Flush", "done": not e.get("noop", False)}
         elif op["op"] == "Compact":
-            rec = {"e": MODEL_OPS[("Compact", op["kind"])], "done": e.get("res") == "done"}
-            if e.get("res") not in ("done", "nofill"):
+            if ("Compact", op["kind"]) not in MODEL_OPS or e.get("res") not in ("done", "nofill"):
                 return None
+            rec = {"e": MODEL_OPS[("Compact", op["kind"])], "done": e.get("res") == "done"}
         elif op["op"] == "Reopen":
             rec = {"e": "Reopen"}
         else:
@@ -269,6 +378,68 @@ def impl_trace(sched, events):
     return out
 
 
+def compact_state(ctx):
+    """The compaction range-lock table (lsm/compact/state.go): what lets Engine.tla treat a compaction as one atomic
+    action. M1 on CompactState.tla (mutual exclusion of overlapping reservations, exact release); TLC-generated call
+    sequences replayed on the real compact.State through its exported API; every reply validated against the
+    property-layer trace spec CompactStateTrace.tla. A divergence cannot be a verdict on C01's statement, but it
+    removes the ground under the atomic-compaction abstraction: the check then cannot decide (exit 2)."""
+    m1s = []
+    for cfg in ("MC_CompactState.cfg", "MC_CompactState_p3.cfg"):   # 3 levels x 3 boundaries x 2 planners; 2 x 3 x 3
+        r = ctx.tlc_or_undecided("CompactState", cfg, timeout=3000)
+        if r.violated:
+            raise Undecided("M1: CompactState.tla violates %s under %s\n%s" % (r.violated, cfg, r.out[-2500:]))
+        ctx.log("CompactState M1 %s: %d generated, %d distinct, depth %d (%.0fs)" % (cfg, r.generated, r.distinct, r.depth, r.wall))
+        m1s.append({"cfg": cfg, "generated": r.generated, "distinct": r.distinct, "depth": r.depth})
+    asis = ctx.tlc_or_undecided("CompactState", "MC_CompactState_asis.cfg", timeout=1200)
+    if asis.violated != "ReleaseExact":
+        raise Undecided("CompactState.tla with Delete as found (before repo fix) no longer shows the leaked range: invariant ReleaseExact does not bite")
+    ctx.log("CompactState M1, Delete as found: ReleaseExact violated in %d states, as recorded" % asis.depth if asis.depth else "CompactState M1, Delete as found: ReleaseExact violated, as recorded")
+    seqs = gen_schedules(ctx, "Gen_CompactState.cfg", 200, 30, ctx.seed * 1000 + 77, module="CompactState")
+    if len(seqs) < 50:
+        raise Undecided("only %d CompactState call sequences generated" % len(seqs))
+    d = ctx.mkdtemp("cstate")
+    inp, outp = os.path.join(d, "in.ndjson"), os.path.join(d, "out.ndjson")
+    with open(inp, "w") as fh:
+        for i, q in enumerate(seqs):
+            fh.write(json.dumps({"id": i, "levels": 3, "ops": q}) + "\n")
+    ctx.run([ctx.build("compactstate"), "-in", inp, "-out", outp], timeout=600)
+    traces = {}
+    for line in open(outp):
+        ev = json.loads(line)
+        sid = ev.pop("s"); ev.pop("skipped", None)
+        if ev.get("ids", 0) is None:
+            ev["ids"] = []
+        traces.setdefault(sid, []).append(ev)
+    tl = [traces[k] for k in sorted(traces)]
+    rej = ctx.validate_traces("CompactStateTrace", "CompactStateTrace.cfg", tl, timeout=1200)
+    for (ti, line, pev, want) in rej[:5]:
+        print("DRIFT family=Engine CompactState sequence=%d at_event=%d %s expected %s (real compact.State diverges from the reference)" % (ti, line, json.dumps(pev), want), flush=True)
+    if rej:
+        ctx.save_replay("compactstate-divergence.json", {"sequence": seqs[rej[0][0]], "line": rej[0][1], "event": rej[0][2], "expected": rej[0][3]})
+        raise Undecided("the compaction range-lock table diverges from its reference in %d replies (first: sequence %d line %d): compactions may overlap or stay "
+                        "blocked, Engine.tla's atomic compaction actions are not justified (replay: out/%s/compactstate-divergence.json)" % (len(rej), rej[0][0], rej[0][1], ctx.pid))
+    ctl = None
+    for t in tl:
+        idx = [i for i, e in enumerate(t) if e["e"] in ("Overlaps", "Acquire")]
+        if idx:
+            ctl = [dict(e) for e in t]
+            key = "reply" if ctl[idx[-1]]["e"] == "Overlaps" else "ok"
+            ctl[idx[-1]][key] = not ctl[idx[-1]][key]
+            break
+    if ctl is None or not ctx.validate_traces("CompactStateTrace", "CompactStateTrace.cfg", [ctl]):
+        raise Undecided("CompactState negative control accepted: the trace specification does not bind replies")
+    calls = {}
+    for t in tl:
+        for e in t:
+            k = e["e"] + (":granted" if e.get("ok") is True else ":refused" if e.get("ok") is False else "")
+            calls[k] = calls.get(k, 0) + 1
+    ctx.log("CompactState: %d call sequences / %d calls replayed on compact.State, 0 divergent replies" % (len(tl), sum(len(t) for t in tl)))
+    return {"m1": m1s,
+            "as_found_delete": "MC_CompactState_asis.cfg violates ReleaseExact (same-level NextRange left behind; fixed in /repo)",
+            "sequences": len(tl), "calls": calls, "divergent_replies": 0, "negative_control": "rejected as required"}
+
+
 def run(ctx):
     pid, quick = ctx.pid, ctx.tier == "quick"
     versioned = pid == "C02"
@@ -281,6 +452,17 @@ def run(ctx):
         raise Undecided("M1: Engine.tla violates %s under %s: the specification (design layer) needs attention\n%s" % (r.violated, mc_cfg, r.out[-2500:]))
     ctx.log("M1 %s: %d generated, %d distinct, depth %d (%.0fs)" % (mc_cfg, r.generated, r.distinct, r.depth, r.wall))
     m1 = r
+    m1x, cstate = {}, None
+    if not quick and pid in ("C01", "C08"):
+        # C01: L0->L0 enabled, with its witness L0FidInversion in taint; C08: refused commit batches (FailWrite) and GC
+        xcfg = "MC_Engine_l0l0.cfg" if pid == "C01" else "MC_EngineF.cfg"
+        rx = ctx.tlc_or_undecided("Engine", xcfg, timeout=3000)
+        if rx.violated:
+            raise Undecided("M1: Engine.tla violates %s under %s\n%s" % (rx.violated, xcfg, rx.out[-2500:]))
+        ctx.log("M1 %s: %d generated, %d distinct, depth %d (%.0fs)" % (xcfg, rx.generated, rx.distinct, rx.depth, rx.wall))
+        m1x = {"cfg": xcfg, "generated": rx.generated, "distinct": rx.distinct, "depth": rx.depth}
+    if not quick and pid == "C01":
+        cstate = compact_state(ctx)
     # ---------------------------------------------------------------- M2
     gen_cfg = "Gen_EngineV.cfg" if versioned else "Gen_Engine.cfg"
     num = 60 if quick else 700
@@ -301,7 +483,16 @@ def run(ctx):
     keys = ["k1", "k2", "k3"]
     scheds = []
     cfgs = CFGS if pid != "C08" else CFGS[2:]
-    ncover = 0
+    ncover, fhists = 0, []
+
+    def with_reopens(ops, i):
+        # C12: close/reopen after every third step of the history, and twice at the end
+        out = []
+        for j, op in enumerate(ops):
+            out.append(op)
+            if (j + i) % 3 == 0 and op["op"] != "Reopen":
+                out.append({"op": "Reopen"})
+        return out + [{"op": "Reopen"}, {"op": "Reopen"}]
     if not versioned:
         cover, cov = gen_cover(ctx)
         ncover = len(cover)
@@ -315,7 +506,10 @@ def run(ctx):
             ext = ext[:260]
         cover = cover + ext
         ncover = len(cover)
-        hists = cover + hists[: (100 if quick else cap)]
+        # behaviours with refused writes (FailWrite): they take the place of as many plain random behaviours
+        nfault = {"C01": 24, "C08": 48, "C12": 16}[pid] if quick else {"C01": 150, "C08": 300, "C12": 100}[pid]
+        fhists = gen_fault_hists(ctx, nfault, (10, 14), 150 if quick else 500)
+        hists = cover + hists[: (100 - len(fhists) if quick else cap)]
     for i, h in enumerate(hists):
         reps = [cfgs[(i + ctx.seed) % len(cfgs)]] if quick else [cfgs[(i + j * 3 + ctx.seed) % len(cfgs)] for j in range(3)]
         if quick and i < ncover:  # every layout at least once inline and once through the value log
@@ -335,20 +529,29 @@ def run(ctx):
             else:
                 s["keys"] = keys
             if pid == "C12":
-                # close/reopen after every step of the history, and twice at the end
-                ops = []
-                for j, op in enumerate(s["ops"]):
-                    ops.append(op)
-                    if (j + i) % 3 == 0 and op["op"] != "Reopen":
-                        ops.append({"op": "Reopen"})
-                s["ops"] = ops + [{"op": "Reopen"}, {"op": "Reopen"}]
+                s["ops"] = with_reopens(s["ops"], i)
+            scheds.append(s)
+    # refused writes: value-log faults (rotation inside a batch) on small value-log files; for C01 a third of them
+    # are WAL faults under SyncWrites
+    fault_sids = set()
+    for i, h in enumerate(fhists):
+        wal = pid == "C01" and i % 3 == 2
+        fc, fk = (FCFGS_WAL, FAULTS_WAL) if wal else (FCFGS, FAULTS_VLOG)
+        for ci, c in enumerate([fc[(i + ctx.seed) % len(fc)]] if quick else fc):
+            bottom = (i + ci + ctx.seed) % 2 == 0
+            r = (i + ci + ctx.seed) % len(fk)
+            s = {"id": len(scheds), "cfg": c, "readall": True, "bottom": bottom, "txn": False, "keys": keys,
+                 "ops": to_ops(h, False, bottom=bottom, faults=fk[r:] + fk[:r])}
+            if pid == "C12":
+                s["ops"] = with_reopens(s["ops"], i)
+            fault_sids.add(s["id"])
             scheds.append(s)
     # recorded findings and repaired defects stay in the schedule set
     extra = json.load(open(os.path.join(VERIF, "findings", "engine_replays.json")))
     known = {f["id"]: f for f in ctx.load_known()}
     replay_ids = {}
     for rp in extra:
-        if pid not in rp["properties"]:
+        if pid not in rp["properties"] or (quick and rp.get("tier") == "thorough"):
             continue
         for c in (CFGS[:2] if not rp.get("cfg") else [rp["cfg"]]):
             s = dict(rp["schedule"]); s["id"] = len(scheds); s["cfg"] = c; s["readall"] = True
@@ -357,7 +560,8 @@ def run(ctx):
     ctx.log("M2: %d TLC behaviours -> %d schedules (%d recorded replays)" % (len(hists), len(scheds), len(replay_ids)))
     traces = run_driver(ctx, scheds, "main")
     order = sorted(traces)
-    tl = [[project(e, scheds[s].get("vmap")) for e in traces[s]] for s in order]
+    proj = [project_trace(traces[s], scheds[s].get("vmap")) for s in order]
+    tl, rawidx = [p[0] for p in proj], [p[1] for p in proj]
     # ---------------------------------------------------------------- M3
     rejected = validate_traces_parallel(ctx, "KVRefTrace", "KVRefTrace.cfg", tl, timeout=1800, chunk=600)
     nevents = sum(len(t) for t in tl)
@@ -365,7 +569,7 @@ def run(ctx):
     classes = {}
     reported = set()
     for (ti, line, pev, want) in rejected:
-        sid = order[ti]
+        sid, line = order[ti], rawidx[ti][line]
         cls = classify(pid, traces[sid], line)
         fid = "%s-%s" % (pid, cls) if cls else None
         if fid and fid in known:
@@ -381,7 +585,7 @@ def run(ctx):
     drift = {"validated": 0, "rejected": 0, "examples": []}
     if pid == "C01":
         impl, owner = [], []
-        for sid in order:
+        for sid in sorted(order, key=lambda x: (x not in replay_ids, x)):   # recorded replays first
             t = impl_trace(scheds[sid], traces[sid])
             if t:
                 impl.append(t); owner.append(sid)
@@ -423,6 +627,32 @@ def run(ctx):
             if e["e"] == "Maint":
                 k = e["what"] + (":" + e.get("kind", "") + ":" + e.get("res", "") if e["what"] == "Compact" else "")
                 kinds[k] = kinds.get(k, 0) + 1
+    fstat = {"schedules": len(fault_sids), "writes_under_armed_fault": 0, "writes_refused": 0, "refused_batches_of_2plus": 0, "fired": {}}
+    for sid in fault_sids:
+        grp = None
+        for e in traces.get(sid, []):
+            f = e.get("fault") if e["e"] in ("Set", "Del") else None
+            if not f:
+                grp = None
+                continue
+            fstat["writes_under_armed_fault"] += 1
+            if not e.get("ok"):
+                fstat["writes_refused"] += 1
+            if grp is None or grp["left"] == 0:
+                grp = {"left": e.get("par", 1), "refused": 0, "counted": False}
+                if f.get("fired"):
+                    kind = f["fop"] + ":*" + f["suffix"]
+                    fstat["fired"][kind] = fstat["fired"].get(kind, 0) + 1
+            grp["left"] -= 1
+            grp["refused"] += 0 if e.get("ok") else 1
+            if grp["refused"] >= 2 and not grp["counted"]:
+                grp["counted"] = True
+                fstat["refused_batches_of_2plus"] += 1
+    if fault_sids and (fstat["writes_refused"] == 0 or not fstat["fired"]):
+        raise Undecided("no injected I/O fault refused any write in %d fault schedules: fault injection is not reaching the engine" % len(fault_sids))
+    fstat["engine_panics_after_fault"] = sum(1 for sid in fault_sids for e in traces.get(sid, []) if e["e"] == "Panic")
+    if fault_sids:
+        ctx.log("I/O faults: %s" % json.dumps(fstat))
     ctx.evidence("model_checking", {
         "states": m1.distinct, "transitions": m1.generated, "traces_validated_against_impl": len(tl),
         "evaluations": len(tl), "distinct_nontrivial": len(distinct),
@@ -432,11 +662,14 @@ def run(ctx):
         "m1": {"cfg": mc_cfg, "generated": m1.generated, "distinct": m1.distinct, "depth": m1.depth, "coverage_zero": m1.coverage_zero},
         "events_validated": nevents, "maintenance_actions_executed": kinds, "rejected_traces": len(rejected),
         "known_finding_hits": classes, "negative_control": "rejected as required",
-        "impl_level_validation": drift,
+        "impl_level_validation": drift, "io_faults": fstat, "m1_extra": m1x, "compact_state": cstate,
         "checker_cmd": "tlc -config %s Engine.tla ; tlc -config KVRefTrace.cfg KVRefTrace.tla" % mc_cfg,
     }, assumptions=[
         "process-level behaviour only; background compaction paused and replaced by forced compactions through the engine's own planner",
-        "L0->L0 compaction is modelled but not driven (needs tables older than 10 s)",
+        "L0->L0 compaction is driven by one dedicated thorough-tier scenario only (the planner needs tables older than 10 s)",
+        "I/O faults: one-shot injected errors at value-log rotation (truncate/sync of the sealed file, create of the next one) and, under "
+        "SyncWrites, at the WAL flush/fsync of a commit; a read that itself returns an I/O error after a fault is not judged, and a trace ends "
+        "at a Close that reports an error (not a clean close)",
         "TLC results hold for the constants in the cfg files",
     ])
 
